@@ -46,10 +46,7 @@ def provenance(check: Check, repo) -> None:
                     check.count("furthest_writes")
                     check.oblige("FURTHEST", f"{rel}::{q}", f"{t.attr} written in {q}" if ok else f"{t.attr} is written outside ParserState.__init__/fail", ok,
                                  finding=Finding("FURTHEST", f"{rel}::{q}", f"{t.attr} is written outside ParserState.__init__/fail", f"{q} assigns {ast.unparse(t)}: the furthest-failure record no longer comes from fail() alone", {}))
-    fail = repo.func(STATE_REL, "ParserState.fail")
-    src = ast.unparse(fail)
-    ok = "self.furthest_pos = pos" in src and ("pos = pos or self.pos" in src or "pos = self.pos if pos is None else pos" in src or "if pos is None:\n" in src)
-    check.oblige("FURTHEST", f"{STATE_REL}::ParserState.fail", "furthest_pos is assigned from pos, which defaults to self.pos" if ok else "furthest_pos is not taken from the (defaulted) pos parameter", ok)
+    # (that fail() records the defaulted position is decided on model histories by the FAIL rule, sa/failsem.py)
     init = ast.unparse(repo.func(STATE_REL, "ParserState.__init__"))
     check.oblige("FURTHEST", f"{STATE_REL}::ParserState.__init__", "sentinel -1 before any failure" if "self.furthest_pos = -1" in init else "furthest_pos does not start at the sentinel -1", "self.furthest_pos = -1" in init)
     # call sites of fail(): no explicit pos, rule_name provenance
@@ -76,8 +73,13 @@ def provenance(check: Check, repo) -> None:
     # rule_name variables in NegativePredicate come from Identifier.value / Rule.name / None
     np = repo.func("src/pest/grammar/expressions/prefix.py", "NegativePredicate.parse")
     vals = {ast.unparse(a.value) for a in ast.walk(np) if isinstance(a, ast.Assign) and ast.unparse(a.targets[0]) == "failed_rule_name"}
-    ok = vals <= {"self.expression.value", "self.expression.name", "None"} and vals
-    check.oblige("FAIL-SITE", "src/pest/grammar/expressions/prefix.py::NegativePredicate.parse", "explicit rule_name is Identifier.value / Rule.name / None" if ok else f"explicit rule_name has other sources {sorted(vals)}", bool(ok))
+    if not vals:
+        # the name no longer reaches fail() through an assignment this rule can read (a helper, a match): undecided,
+        # not wrong
+        check.defer_error("src/pest/grammar/expressions/prefix.py::NegativePredicate.parse: where the explicit rule_name of a failed predicate comes from could not be read (FAIL-SITE)")
+    else:
+        ok = vals <= {"self.expression.value", "self.expression.name", "None"}
+        check.oblige("FAIL-SITE", "src/pest/grammar/expressions/prefix.py::NegativePredicate.parse", "explicit rule_name is Identifier.value / Rule.name / None" if ok else f"explicit rule_name has other sources {sorted(vals)}", bool(ok))
 
 
 def rule_name_pairing(check: Check, repo) -> None:
@@ -164,6 +166,6 @@ def run(tier: str) -> Check:
     for cat, msgs in sorted(cats_c.items()):
         check.oblige("CONTEXT", ccon, cat, False, sample=True, finding=Finding("CONTEXT", ccon, cat, f"error_context: {cat}: e.g. {msgs[0]} ({len(msgs)} of {n_c} model points)", {"witness": msgs[0]}))
     check.floor("context_model_points", 500)
-    check.floor("fail_call_sites", 18)
+    check.floor("fail_call_sites", 8)  # a vacuity guard, not a census
     check.floor("furthest_writes", 8)
     return check
